@@ -456,10 +456,12 @@ func c19Concurrent(x *runCtx, r *rand.Rand, backend string, n, procs int, delays
 // scriptOwner sends a scripted number of messages of given sizes, one batch per ProduceInfo call.
 type scriptOwner struct {
 	sizes [][]int
-	round int
-	delay func()
-	gotMu sync.Mutex
-	got   []string
+	// lastWithDone: the last batch of messages travels in the same TO2.OwnerServiceInfo that says IsDone
+	lastWithDone bool
+	round        int
+	delay        func()
+	gotMu        sync.Mutex
+	got          []string
 }
 
 func (m *scriptOwner) HandleInfo(ctx context.Context, name string, body io.Reader) error {
@@ -509,15 +511,22 @@ func (m *scriptOwner) ProduceInfo(ctx context.Context, p *serviceinfo.Producer) 
 		}
 	}
 	m.round++
+	if m.lastWithDone && m.round-1 >= len(m.sizes) {
+		return false, true, nil
+	}
 	return false, false, nil
 }
 
 // scriptDevice answers every message with a scripted reply and records what it received.
 type scriptDevice struct {
 	reply int
-	delay func()
-	mu    sync.Mutex
-	got   []string
+	// yieldAfter: after replying the module forces a message break and then goes on working for `tail` before its
+	// callback returns; "handled:<name>" is recorded when the callback is about to return
+	yieldAfter bool
+	tail       time.Duration
+	delay      func()
+	mu         sync.Mutex
+	got        []string
 }
 
 func (m *scriptDevice) Transition(bool) error { return nil }
@@ -537,7 +546,20 @@ func (m *scriptDevice) Receive(ctx context.Context, name string, body io.Reader,
 		if _, err := respond("r").Write(out); err != nil {
 			return err
 		}
+		if m.yieldAfter {
+			yield()
+		}
 	}
+	if m.tail > 0 {
+		select {
+		case <-time.After(m.tail):
+		case <-ctx.Done():
+			return ctx.Err()
+		}
+	}
+	m.mu.Lock()
+	m.got = append(m.got, "handled:"+name)
+	m.mu.Unlock()
 	return nil
 }
 func (m *scriptDevice) Yield(ctx context.Context, respond func(string) io.Writer, yield func()) error {
@@ -558,7 +580,12 @@ func c19Pipeline(x *runCtx, r *rand.Rand) {
 		mtus = []uint16{200, 256, 512, 1300, 4000}
 	}
 	levels := []time.Duration{0, 200 * time.Microsecond, 4 * time.Millisecond}
+	// scripts 0..: as above; two more in which the owner's last messages arrive together with IsDone and the device module
+	// replies, forces a message break and keeps working for a while
+	nPlain := len(scripts)
+	scripts = append(scripts, [][]int{{10, 20, 30}}, [][]int{{300}, {40, 40}})
 	for si, script := range scripts {
+		withDone := si >= nPlain
 		for _, mtu := range mtus {
 			var baseline string
 			for perm := 0; perm < 27; perm++ {
@@ -571,7 +598,7 @@ func c19Pipeline(x *runCtx, r *rand.Rand) {
 				st := lab.NewMemState()
 				w := lab.NewWorld(st)
 				w.OwnerMTU = &mtu
-				so := &scriptOwner{sizes: script, delay: func() { time.Sleep(dp) }}
+				so := &scriptOwner{sizes: script, delay: func() { time.Sleep(dp) }, lastWithDone: withDone}
 				w.Modules = func(context.Context, []string) []lab.NamedModule { return []lab.NamedModule{{Name: "s", Mod: so}} }
 				k := lab.KindByName("P-256")
 				d, err := w.NewDevice(ctx0, k, protocol.X509KeyEnc, "dev1", nil)
@@ -581,7 +608,10 @@ func c19Pipeline(x *runCtx, r *rand.Rand) {
 				if err := w.Extend(ctx0, d.Cred.GUID, k, "mfg", "own1", false); err != nil {
 					fatal("extend: %v", err)
 				}
-				sd := &scriptDevice{reply: 40 + 100*si, delay: func() { time.Sleep(dc) }}
+				sd := &scriptDevice{reply: 40 + 100*(si%3), delay: func() { time.Sleep(dc) }}
+				if withDone {
+					sd.yieldAfter, sd.tail = true, 30*time.Millisecond
+				}
 				tap := &lab.Tap{Request: func(uint8, http.Header, *[]byte) error { time.Sleep(dt); return nil }}
 				ctx, cancel := context.WithTimeout(ctx0, 60*time.Second)
 				resc := make(chan string, 1)
@@ -611,6 +641,19 @@ func c19Pipeline(x *runCtx, r *rand.Rand) {
 				so.gotMu.Unlock()
 				sort.Strings(ogot) // fragments of one reply may be handed over in pieces; compare as a multiset
 				obs := fmt.Sprintf("%s device=%v owner=%d", res, got, len(ogot))
+				// when TO2 returns, no device-module callback is still at work: every message received has been handled
+				nRecv, nHandled := 0, 0
+				for _, g := range got {
+					if strings.HasPrefix(g, "handled:") {
+						nHandled++
+					} else {
+						nRecv++
+					}
+				}
+				if res == "ok" && nHandled != nRecv {
+					x.r.Violate(rep.Violation{Kind: "oracle", Check: "C19.pipeline", Signature: "C19.pipeline:module-callback-still-running-when-TO2-returned", Input: input,
+						Impl: obs, Detail: fmt.Sprintf("%d messages handed to the device module, %d callbacks finished when TO2 returned", nRecv, nHandled), PropertyFails: true})
+				}
 				if perm == 0 {
 					baseline = obs
 					if res != "ok" {
